@@ -516,7 +516,9 @@ def run_trace(job) -> dict:
     # the TWIN: the object at the same path on the identical second slide of a fixture deck.  After the first accepted assignment the
     # twin is given the same value (two objects that share a relationship or a cached sub-object then really share it); from then on
     # m.tw says whether any reading of the twin changed in the step ("changed") - or, at the mirror step, any reading of the object
-    tpath = ("slides[1]" + path[len("slides[0]"):]) if (path.startswith("slides[0]") and not str(deck).startswith("/")) else None
+    # (observed in the sweep and the pair scenarios; the triple scenarios differ from the pairs in the primary object's history only)
+    tpath = ("slides[1]" + path[len("slides[0]"):]) if (path.startswith("slides[0]") and not str(deck).startswith("/")
+                                                        and len([x for x in acts if x["op"] != "SaveReopen"]) <= 2) else None
 
     def twin_of(prs_):
         if tpath is None:
